@@ -12,6 +12,7 @@ import (
 	"time"
 
 	"github.com/ali-assar/NATS-Leader-Election/leader"
+	"github.com/prometheus/client_golang/prometheus"
 )
 
 // runStress exercises, in real time and on all cores, what the cooperative scheduling of the scenario runner cannot:
@@ -45,8 +46,20 @@ func runStress(rep *Report, rng *rand.Rand, n int, thorough bool) error {
 					return
 				}
 				var promotes, demotes atomic.Int64
-				el.OnPromote(func(ctx context.Context, token string) { promotes.Add(1) })
-				el.OnDemote(func() { demotes.Add(1) })
+				var seqMu sync.Mutex
+				var seq []byte // order in which the callbacks started
+				el.OnPromote(func(ctx context.Context, token string) {
+					seqMu.Lock()
+					seq = append(seq, 'P')
+					seqMu.Unlock()
+					promotes.Add(1)
+				})
+				el.OnDemote(func() {
+					seqMu.Lock()
+					seq = append(seq, 'D')
+					seqMu.Unlock()
+					demotes.Add(1)
+				})
 				_ = el.Start(context.Background())
 				for k := 0; k < 400 && !el.IsLeader(); k++ {
 					time.Sleep(100 * time.Microsecond)
@@ -84,6 +97,20 @@ func runStress(rep *Report, rng *rand.Rand, n int, thorough bool) error {
 					rep.nontrivial(fmt.Sprintf("w%d-c%d", wkr, cycle))
 					rep.hit("stress:concurrent-demotion-causes")
 				}
+				seqMu.Lock()
+				order := string(seq)
+				seqMu.Unlock()
+				alternates := true
+				for k := 0; k < len(order); k++ {
+					if (k%2 == 0) != (order[k] == 'P') {
+						alternates = false
+					}
+				}
+				if !alternates {
+					rep.violation(Finding{Property: "C08", Clause: "callbacks-out-of-order-under-concurrency",
+						Input:  fmt.Sprintf("cycle %d of worker %d: leader, record replaced by an outside writer, %d concurrent ValidateTokenOrDemote calls, Stop", cycle, wkr, callers),
+						Detail: "order in which the callbacks started: " + order})
+				}
 				if p != d {
 					rep.violation(Finding{Property: "C08", Clause: "callbacks-unbalanced-under-concurrency",
 						Input:  fmt.Sprintf("cycle %d of worker %d: leader, record replaced by an outside writer, %d concurrent ValidateTokenOrDemote calls, Stop", cycle, wkr, callers),
@@ -94,5 +121,103 @@ func runStress(rep *Report, rng *rand.Rand, n int, thorough bool) error {
 		}(wkr)
 	}
 	wg.Wait()
+	runDuel(rep, rng, dur/2)
 	return nil
+}
+
+// duelMetrics observes every leadership-flag change of one election of a duel (C02 under real parallelism).
+type duelMetrics struct {
+	me     int
+	els    *[]leader.Election
+	report func(me, other int)
+}
+
+func (m duelMetrics) SetIsLeader(v float64, l prometheus.Labels) {
+	if v == 0 {
+		return
+	}
+	// the flag of `me` is raised at this instant: nobody else's may be
+	for k, o := range *m.els {
+		if k != m.me && o != nil && o.IsLeader() {
+			m.report(m.me, k)
+		}
+	}
+}
+func (duelMetrics) SetConnectionStatus(float64, prometheus.Labels)                {}
+func (duelMetrics) IncTransitions(prometheus.Labels)                              {}
+func (duelMetrics) IncFailures(prometheus.Labels)                                 {}
+func (duelMetrics) IncAcquireAttempts(prometheus.Labels)                          {}
+func (duelMetrics) IncTokenValidationFailures(prometheus.Labels)                  {}
+func (duelMetrics) ObserveHeartbeatDuration(time.Duration, prometheus.Labels)     {}
+func (duelMetrics) ObserveLeaderDuration(time.Duration, prometheus.Labels)        {}
+
+// runDuel: three elections of one group on a linearizable store without expiry, each started and stopped gracefully
+// (StopWithContext with key deletion) over and over from its own goroutine, on all cores.  With nobody else
+// writing and no record ever lapsing, two instances must never report leadership at the same instant (C02); checked at
+// every flag raise.
+func runDuel(rep *Report, rng *rand.Rand, dur time.Duration) {
+	kv := newMemKV(rng.Int63())
+	h := 20 * time.Millisecond
+	els := make([]leader.Election, 3)
+	var mu sync.Mutex
+	double := 0
+	var first string
+	for i := range els {
+		cfg := leader.ElectionConfig{Bucket: "b", Group: "g", InstanceID: fmt.Sprintf("i%d", i+1), TTL: 3 * h, HeartbeatInterval: h,
+			Metrics: duelMetrics{me: i, els: &els, report: func(me, other int) {
+				mu.Lock()
+				double++
+				if first == "" {
+					first = fmt.Sprintf("i%d raised its flag while i%d still reported leadership", me+1, other+1)
+				}
+				mu.Unlock()
+			}}}
+		el, err := leader.NewElection(&memProvider{kv, nil}, cfg)
+		if err != nil {
+			return
+		}
+		els[i] = el
+	}
+	stop := make(chan struct{})
+	var wg sync.WaitGroup
+	var cycles atomic.Int64
+	for i := range els {
+		el := els[i]
+		seed := rng.Int63()
+		wg.Add(1)
+		go func() {
+			defer wg.Done()
+			r := rand.New(rand.NewSource(seed))
+			for {
+				select {
+				case <-stop:
+					return
+				default:
+				}
+				_ = el.Start(context.Background())
+				time.Sleep(time.Duration(r.Intn(40)) * time.Millisecond / 4)
+				// (always with key deletion: this store has no expiry, and nobody but the elections may touch the record)
+				_ = el.StopWithContext(context.Background(), leader.StopOptions{DeleteKey: true, WaitForDemote: r.Intn(2) == 0,
+					Timeout: []time.Duration{200 * time.Millisecond, 2 * time.Second}[r.Intn(2)]})
+				cycles.Add(1)
+			}
+		}()
+	}
+	time.Sleep(dur)
+	close(stop)
+	wg.Wait()
+	for _, el := range els {
+		_ = el.Stop()
+	}
+	mu.Lock()
+	defer mu.Unlock()
+	rep.Cases++
+	rep.Compared += int(cycles.Load())
+	rep.nontrivial("duel")
+	rep.hit("stress:duel-cycles")
+	if double > 0 {
+		rep.violation(Finding{Property: "C02", Clause: "two-leaders-under-concurrency",
+			Input:  fmt.Sprintf("duel of 3 elections for %v: start / graceful stop with key deletion in a loop (%d cycles)", dur, cycles.Load()),
+			Detail: fmt.Sprintf("%d flag raises found another instance still reporting leadership; first: %s", double, first)})
+	}
 }
